@@ -22,6 +22,7 @@ import (
 	"golang.org/x/image/math/fixed"
 
 	"verif/internal/corpus"
+	"verif/internal/synthfont"
 )
 
 const (
@@ -41,10 +42,13 @@ type Feature struct {
 
 // Case is one shaping call, decoded.
 type Case struct {
-	API   string `json:"api"`
-	Font  string `json:"font"`  // corpus-relative path
-	Index int    `json:"index"` // face index in the file
-	Text  []rune `json:"text"`  // rune values as integers (may be invalid scalar values)
+	API string `json:"api"`
+	// Synth, when set, describes a generated font (internal/synthfont) used instead of a corpus
+	// face; Font is then "synth:<kind>" (informational) and Index 0.
+	Synth *synthfont.Spec `json:"synth,omitempty"`
+	Font  string          `json:"font"`  // corpus-relative path
+	Index int             `json:"index"` // face index in the file
+	Text  []rune          `json:"text"`  // rune values as integers (may be invalid scalar values)
 	// requested run; for API "harfbuzz" always 0 <= RunStart <= RunEnd <= len(Text)
 	RunStart int `json:"run_start"`
 	RunEnd   int `json:"run_end"`
@@ -87,6 +91,9 @@ func TagName(t uint32) string {
 
 // Face resolves the face of the case in the corpus.
 func (c *Case) Face() (*font.Face, error) {
+	if c.Synth != nil {
+		return synthfont.Face(*c.Synth)
+	}
 	faces, err := corpus.Faces(c.Font)
 	if err != nil {
 		return nil, err
